@@ -333,6 +333,25 @@ func etWholeRuns(c *vh.Ctx, nRuns int, c08, c06 bool) {
 func runOneET(c *vh.Ctx, root string, p *proj.Project, v etVariant, vi int, seed uint64, st *etRunStats, c08, c06 bool) {
 	method := etMethodName[v.Method]
 	n := p.N()
+	// field capacity per 10 cm layer as given explicitly in the soil file (0 = not explicit / PTF route)
+	var inputFC [21]float64
+	allExplicit := true
+	for _, h := range p.Soil {
+		if h.FC <= 0 {
+			allExplicit = false // mixed parameter routes: the run re-derives every horizon from the table after a groundwater change (a C15 matter)
+		}
+	}
+	if (p.Cfg["PTF"] == "" || p.Cfg["PTF"] == "0") && allExplicit {
+		lo := 0
+		for _, h := range p.Soil {
+			for z := lo; z < h.Lower && z < 21; z++ {
+				if h.FC > 0 {
+					inputFC[z] = float64(h.FC) / 100
+				}
+			}
+			lo = h.Lower
+		}
+	}
 	payload := func(zeit int, more map[string]interface{}) interface{} {
 		m := map[string]interface{}{"variant": v.Name, "variant_index": vi, "run_seed": fmt.Sprint(seed), "project": p, "day": proj.FromZ(zeit).String(), "zeit": zeit}
 		for k, x := range more {
@@ -507,6 +526,15 @@ func runOneET(c *vh.Ctx, root string, p *proj.Project, v etVariant, vi int, seed
 						where = "below-groundwater"
 					}
 					viol("wg-above-capacity:"+where, fmt.Sprintf("layer %d ends at %.9g above field capacity %.9g + capillary increment %.9g", i+1, x, g.W[i], capInc[i]), zeit, more)
+				}
+				// the same bound against the field capacity the INPUT gives the layer (explicit values of
+				// the soil file, no pedotransfer function): a layer whose lower edge lies above the
+				// groundwater table keeps the soil file's field capacity, whatever the table did before
+				if fcIn := inputFC[i]; fcIn > 0 && float64(i+2) < g.GRW {
+					if up := fcIn + capInc[i]; x > up+1e-9*(1+up) {
+						more["field_capacity_of_soil_file"] = fcIn
+						viol("wg-above-input-capacity:above-groundwater", fmt.Sprintf("layer %d (above the groundwater table at %.3g dm) ends at %.9g above the soil file's field capacity %.9g + capillary increment %.9g (the run uses W = %.9g)", i+1, g.GRW, x, fcIn, capInc[i], g.W[i]), zeit, more)
+					}
 				}
 			}
 			if capDay {
